@@ -459,8 +459,12 @@ DEFAULT_ATTRS = {
 
 
 def render_xml(doc: Doc, style: str = "xtce", comments=None, whitespace: bool = False,
-               tree: Optional[El] = None, bool_case: str = "lower", omit_defaults: bool = False) -> bytes:
+               tree: Optional[El] = None, bool_case: str = "lower", omit_defaults: bool = False,
+               text_style: str = "plain") -> bytes:
     """Serialise.  comments: None | 'all' | set of position indices (see count_positions).
+    text_style: how element text and attribute values are spelled - 'plain', 'charref' (first character as a numeric character reference,
+    decimal and hexadecimal alternating), 'entity' (element text through general entities declared in an internal DTD subset; attribute
+    values through character references) or 'cdata' (element text in a CDATA section).  XML defines all four to carry the same characters.
     bool_case: spelling of boolean attribute values, 'lower' (true/false), 'title' (True/False) or 'upper' (TRUE/FALSE); the library reads
     all three alike in every place where it reads a boolean."""
     tree = tree or doc_tree(doc)
@@ -468,6 +472,33 @@ def render_xml(doc: Doc, style: str = "xtce", comments=None, whitespace: bool = 
            "both:unprefixed,loaded-as-xtce": "", "both:prefixed,loaded-as-default": "xtce:"}[style]
     out = ["<?xml version='1.0' encoding='UTF-8'?>\n"]
     pos = [0]
+    entities = {}   # text -> entity name (text_style 'entity')
+    nref = [0]
+
+    def charref(t):
+        if not t:
+            return escape(t)
+        nref[0] += 1
+        return (f"&#{ord(t[0])};" if nref[0] % 2 else f"&#x{ord(t[0]):X};") + escape(t[1:])
+
+    def spell_attr(v):
+        if text_style in ("charref", "entity"):
+            t = str(v)
+            if not t:
+                return '""'
+            nref[0] += 1
+            rest = escape(t[1:], {'"': "&quot;", "\n": "&#10;", "\r": "&#13;", "\t": "&#9;"})
+            return '"' + (f"&#{ord(t[0])};" if nref[0] % 2 else f"&#x{ord(t[0]):x};") + rest + '"'
+        return quoteattr(str(v))
+
+    def spell_text(t):
+        if text_style == "charref":
+            return charref(t)
+        if text_style == "entity" and t:
+            return "&" + entities.setdefault(t, f"t{len(entities)}") + ";"
+        if text_style == "cdata" and "]]>" not in t:
+            return "<![CDATA[" + t + "]]>"
+        return escape(t)
 
     def want_comment():
         i = pos[0]
@@ -487,7 +518,7 @@ def render_xml(doc: Doc, style: str = "xtce", comments=None, whitespace: bool = 
             for k in BOOL_ATTRS:
                 if av.get(k) in ("true", "false"):
                     av[k] = av[k].title() if bool_case == "title" else av[k].upper()
-        attrs = "".join(f" {k}={quoteattr(str(v))}" for k, v in av.items())
+        attrs = "".join(f" {k}={spell_attr(v)}" for k, v in av.items())
         if is_root:
             if style in ("xtce", "q", "XTCE"):
                 attrs += f' xmlns:{pfx[:-1]}="{XTCE_URI}"'
@@ -506,7 +537,7 @@ def render_xml(doc: Doc, style: str = "xtce", comments=None, whitespace: bool = 
             return
         out.append(f"<{tag}{attrs}>")
         if e.text is not None:
-            out.append(escape(e.text))
+            out.append(spell_text(e.text))
         for k in e.children:
             if want_comment():
                 out.append(ws(depth + 1) + f"<!-- c{pos[0]} -->")
@@ -520,6 +551,9 @@ def render_xml(doc: Doc, style: str = "xtce", comments=None, whitespace: bool = 
 
     emit(tree, 0, True)
     out.append("\n")
+    if entities:
+        decl = "".join('<!ENTITY %s "%s">' % (n, escape(t, {'"': "&quot;", "%": "&#37;"})) for t, n in entities.items())
+        out.insert(1, f"<!DOCTYPE {pfx}SpaceSystem [{decl}]>\n")
     return "".join(out).encode("utf-8")
 
 
@@ -682,5 +716,19 @@ def load_xml(xml: bytes, style: str = "xtce", root: str = "CCSDSPacket"):
     return XtcePacketDefinition.from_xtce(io.BytesIO(xml), xtce_ns_prefix=ns_prefix_arg(style), root_container_name=root)
 
 
+TEXT_STYLES = ("plain", "charref", "entity", "cdata")
+
+
+def doc_xml(doc: Doc, style: str = "xtce", **kw) -> bytes:
+    """The document as the checks hand it to the loader: unless the caller fixes it, the spelling of characters (plain, character references,
+    internal entities, CDATA) rotates with the document's content, so every family of documents is read in all four."""
+    if "text_style" not in kw:
+        import zlib
+        plain = render_xml(doc, style, **kw)
+        ts = TEXT_STYLES[zlib.crc32(plain) % 4]
+        return plain if ts == "plain" else render_xml(doc, style, text_style=ts, **kw)
+    return render_xml(doc, style, **kw)
+
+
 def load_doc(doc: Doc, style: str = "xtce", **kw):
-    return load_xml(render_xml(doc, style, **kw), style, doc.root)
+    return load_xml(doc_xml(doc, style, **kw), style, doc.root)
